@@ -47,6 +47,8 @@ TEXT_CTRL = [chr(c) for c in (10, 11, 12, 0x1c, 0x1d, 0x1e, 0x85, 9, 0, 0x7f)]
 
 SPECIAL_TEXTS = ['""', "''", "null", "None", "NULL", "-", "0", "nan", "{}", "[]", "[1, 2]", "false", " ",
                  # fixed-width padding is part of the text; latin-1 text whose bytes happen to be well-formed UTF-8
+                 # escape sequences of E1394 are text for this package (nothing is unescaped)
+                 "&X41&", "OP&X41&1", "a&X0D0A&b", "&R&", "a&F&b", "&E&", "&&",
                  "  7", "7  ", " a ", "   ", "\u00c2\u00b5mol/L", "\u00c3\u00a9", "caf\u00c3\u00a9 \u00c2\u00b0C"]
 
 
